@@ -140,6 +140,33 @@ func runC11(c *Ctx) {
 		if coqVal(target.Elem()) != snapshot {
 			c.native = append(c.native, NativeViolation{Case: desc + fmt.Sprintf(" data=%x", data), What: "overwriting / re-using the input buffer changed the decoded value", Class: "decoded-aliases-input"})
 		}
+		// ---- the same through a target that already holds data (same keys, same shapes):
+		// whatever is overwritten or merged must still be a private copy
+		in2 := make([]byte, len(data), len(data)+16)
+		copy(in2, data)
+		reused := reflect.New(tc.T)
+		deepCopyInto(reused.Elem(), v)
+		if c.rng.Bool() {
+			// ... or holds the result of an earlier decode of the same bytes
+			tc.P.Unmarshal(append([]byte{}, data...), reused.Interface())
+		}
+		if err := tc.P.Unmarshal(in2, reused.Interface()); err == nil {
+			if string(in2) != string(data) {
+				c.native = append(c.native, NativeViolation{Case: desc, What: "Unmarshal into a re-used target modified the input bytes", Class: "unmarshal-modifies-input"})
+			}
+			lo, hi = rangeOf(in2)
+			if m := findAlias(reused.Elem(), lo, hi, 0); m != "" {
+				c.native = append(c.native, NativeViolation{Case: desc + fmt.Sprintf(" data=%x", data), What: "value decoded into a re-used target points into the input buffer: " + m, Class: "decoded-aliases-input"})
+			}
+			snap2 := coqVal(reused.Elem())
+			for j := range in2[:cap(in2)] {
+				in2[:cap(in2)][j] = 0x23
+			}
+			if coqVal(reused.Elem()) != snap2 {
+				c.native = append(c.native, NativeViolation{Case: desc + fmt.Sprintf(" data=%x", data), What: "overwriting the input buffer changed the value decoded into a re-used target", Class: "decoded-aliases-input"})
+			}
+			c.count("reused_target_decodes")
+		}
 		fuel := tc.fuel(valueDepth(v))
 		c.add(fmt.Sprintf("KMarshal %s %s %s false %s", tc.head(fuel), coqVal(v), coqBytes(prefix), coqBytes(saved)), desc, shapeClass(tc.T, 3)+"/"+tc.Cfg.String(), hasContainerAndNonZero(v))
 		c.count("kind_" + tc.T.Kind().String())
